@@ -174,8 +174,17 @@ def render (F : FileM) : Str := joinLines (fileLines F)
 
 /-! ### Well-formedness (decidable) -/
 
-/-- printable ASCII -/
-def okText (s : Str) : Bool := s.all fun c => decide (32 ≤ c.toNat) && decide (c.toNat < 127)
+/-- a text that stays in its line and reads back as itself: no character that ends a line of a text-mode file
+(`\n`, `\r`; form feed, vertical tab, FS/GS/RS, NEL, U+2028/9 are *allowed* — they do not end a line), and no
+non-ASCII whitespace at the ends of its stripped form (Python's `strip()` would remove it) -/
+def okText (s : Str) : Bool :=
+  s.all (fun c => !Midgard.TextLines.isLineEnd c) &&
+  (match strip s with
+   | [] => true
+   | c :: r => !Midgard.TextLines.isUniSpace c && !Midgard.TextLines.isUniSpace ((c :: r).getLast?.getD c))
+
+/-- a token of a correction row: ASCII (the row is cut by `str.split()`, which also cuts at non-ASCII whitespace) -/
+def isAscii (s : Str) : Bool := s.all fun c => decide (c.toNat < 128)
 
 /-- the cells of a record of kind `k`: printable, no outer blanks, as many as the record has fields, each
 no wider than its field -/
@@ -193,10 +202,10 @@ def isToken (t : Str) : Bool := !t.isEmpty && t.all (fun c => !isSpace c)
 def isNumText (t : Str) : Bool := isToken t && t.all (fun c => !(isAlpha c || c == '#'))
 
 /-- a value of a correction row: leaves at least one blank in its 8 columns -/
-def okRowVal (c : NumCell) : Bool := okText c.text && isNumText c.text && decide (c.text.length ≤ 7) && okNum c
+def okRowVal (c : NumCell) : Bool := okText c.text && isAscii c.text && isNumText c.text && decide (c.text.length ≤ 7) && okNum c
 
 def okRow (r : Str × List NumCell) : Bool :=
-  okText r.1 && isToken r.1 && decide (r.1.length ≤ 8) && r.1 != "NOAZI".toList && r.2.all okRowVal
+  okText r.1 && isAscii r.1 && isToken r.1 && decide (r.1.length ≤ 8) && r.1 != "NOAZI".toList && r.2.all okRowVal
 
 def SecM.wf (b : SecM) : Bool :=
   okRec "NEU" (neuCells b) && okNum b.north && okNum b.east && okNum b.up &&
@@ -225,8 +234,8 @@ def AntM.wf (a : AntM) : Bool :=
   a.freqs.all (·.wf) && a.rmsAfter.all (fun r => okRec "SOR" [r.1] && r.2.wf) &&
   a.deco.all (·.all (·.wf))
 
-/-- **well-formed**: every cell is printable, has no outer blanks and fits its columns (comments: any
-printable text of at most 60 characters); every number cell denotes its value; printed dates exist;
+/-- **well-formed**: every cell is free of line ends (`\n`, `\r`), has no outer blanks and fits its columns (comments: any
+line-end-free text of at most 60 characters); every number cell denotes its value; printed dates exist;
 correction-row values leave one blank in their 8 columns.  Nothing is required about uniqueness of
 antennas, frequencies or validity periods: `calibrations` says which files are refused. -/
 def FileM.wf (F : FileM) : Bool :=
